@@ -25,6 +25,8 @@ def run(chk):
     heapuse.rule_free_const_param(chk, prog, "C08.R5")
     heapuse.rule_dangling_fields(chk, prog, "C08.R6")
     heapuse.rule_double_release(chk, prog, "C08.R7")
+    from .. import nullflow as _nf
+    _nf.rule_null_literal_args(chk, prog, "C08.R1n")
     with chk.shared():
         # R4 failure atomicity of the string set operation (shared with C11): a failed set must not have freed or written anything
         from . import c11
